@@ -669,7 +669,8 @@ package jet
 //@   loop 0 step [a-yield-content-hands-up-the-value-the-content-returned] {C09} NTF(list.Nodes[prev(i)]) == NodeYield && as(list.Nodes[prev(i)], "*YieldNode").IsContent && prev(st.content) != nil ==> returnValue == ite(RvValid(lastret("field:Runtime.content", 0)), lastret("field:Runtime.content", 0), prev(returnValue))
 //@   loop 0 step [a-try-hands-up-the-value-it-returned] {C09} NTF(list.Nodes[prev(i)]) == NodeTry ==> returnValue == ite(RvValid(siteret("(*Runtime).executeTry", 0, 0)), siteret("(*Runtime).executeTry", 0, 0), prev(returnValue))
 //@   loop 0 step [an-include-hands-up-the-value-the-included-template-returned] {C09} NTF(list.Nodes[prev(i)]) == NodeInclude ==> returnValue == ite(RvValid(siteret("(*Runtime).executeInclude", 0, 0)), siteret("(*Runtime).executeInclude", 0, 0), prev(returnValue))
-//@   loop 0 step [a-return-statement-sets-the-value-to-its-operand] {C09} NTF(list.Nodes[prev(i)]) == NodeReturn ==> returnValue == siteret("(*Runtime).evalPrimaryExpressionGroup", 3, 0)
+//@   loop 0 step [a-return-statement-sets-the-value-to-its-operand] {C09} NTF(list.Nodes[prev(i)]) == NodeReturn ==> returnValue == ite(RvValid(siteret("(*Runtime).evalPrimaryExpressionGroup", 3, 0)), siteret("(*Runtime).evalPrimaryExpressionGroup", 3, 0), returnedNil)
+//@   loop 0 step [an-executed-return-statement-always-leaves-a-value-behind] {C09} NTF(list.Nodes[prev(i)]) == NodeReturn ==> RvValid(returnValue)
 //@   callsite (*Runtime).evalPrimaryExpressionGroup 3 requires [a-return-statement-evaluates-its-operand] {C09} node == as(caller.list.Nodes[caller.i], "*ReturnNode").Value
 //@   loop 0 step [a-range-hands-its-ranger-back-exactly-once] {C10,C11,C05} ncalls("dynamic:func()") == prev(ncalls("dynamic:func()")) + ite(NTF(list.Nodes[prev(i)]) == NodeRange, 1, 0)
 //@   loop 0 step [if-renders-exactly-one-branch] {C05,C03} NTF(list.Nodes[prev(i)]) == NodeIf ==> ite(lastret("isTrue", 0), visits("(*Runtime).executeList", 0) == prev(visits("(*Runtime).executeList", 0)) + 1 && visits("(*Runtime).executeList", 1) == prev(visits("(*Runtime).executeList", 1)), visits("(*Runtime).executeList", 0) == prev(visits("(*Runtime).executeList", 0)) && visits("(*Runtime).executeList", 1) == prev(visits("(*Runtime).executeList", 1)) + ite(as(list.Nodes[prev(i)], "*IfNode").ElseList != nil, 1, 0))
@@ -802,6 +803,8 @@ package jet
 //@   callsite (*Set).GetTemplate count 1 {C15,C09}
 //@   callsite (*Arguments).Get 0 requires [exec-takes-the-name-from-its-first-argument] {C15,C09} argumentIndex == 0
 //@   callsite (*Runtime).executeList 0 requires [exec-discards-output] st.escapeeWriter.Writer == ioutil.Discard
+//@   callsite returned 0 requires [exec-evaluates-to-what-the-root-list-returned] {C09} v == lastret("(*Runtime).executeList", 0)
+//@   check [exec-evaluates-to-what-the-root-list-returned] {C09} result == lastret("returned", 0)
 //@   callsite (*Runtime).executeList 0 requires [exec-runs-root-with-its-blocks] list == RootOf(lastret("(*Set).GetTemplate", 0)).Root && st.scope.blocks == lastret("(*Set).GetTemplate", 0).processedBlocks && st.scope.parent == old(a.runtime.scope)
 //@   callsite (*Runtime).executeList count 1
 //@   anypanic
@@ -876,6 +879,12 @@ package jet
 //@ immutable {C12,C06,C14,C17,C01} global safeWriterType
 //@ immutable {C12,C06,C14,C17,C10,C11} global cachedStructsFieldIndex
 //@ immutable {C09} global ioutil.Discard
+//@ immutable {C09} global returnedNil
+//@ axiom RvValid(returnedNil)
+//@ func returned
+//@   props C09
+//@   ensures [an-executed-return-nil-evaluates-to-nil] RvValid(v) && RvTypeOf(v) == RvTypeOf(returnedNil) ==> !RvValid(result)
+//@   ensures [every-other-value-is-handed-on] !(RvValid(v) && RvTypeOf(v) == RvTypeOf(returnedNil)) ==> result == v
 // ParamT(t, k): the type the k-th actual argument of a call to a function of type t must be assignable to
 //@ ufunc ParamT(reflect.Type, int) reflect.Type
 //@ axiom forallT(t, "reflect.Type", forallT(k, "int", ParamT(t, k) == ite(TVariadic(t) && k >= TNumIn(t) - 1, TElem(TIn(t, TNumIn(t) - 1)), TIn(t, k))))
